@@ -706,7 +706,11 @@ type server struct {
 	shadow  map[string]shadowEntry
 }
 
+var tNew, tServe, tClose time.Duration
+
 func newServer(dbs *dbSet, backend, cache string) (*server, error) {
+	t := time.Now()
+	defer func() { tNew += time.Since(t) }()
 	s := &server{backend: backend, cache: cache, shadow: map[string]shadowEntry{}}
 	s.stats = &recStats{real: metrics.NewStats()}
 	s.logger = &recLogger{}
@@ -737,6 +741,8 @@ func newServer(dbs *dbSet, backend, cache string) (*server, error) {
 }
 
 func (s *server) close() {
+	t := time.Now()
+	defer func() { tClose += time.Since(t) }()
 	if s.loaded {
 		s.h.Close()
 	}
@@ -1091,10 +1097,10 @@ func coreSpecs() []qspec {
 		b("bar.example.com.", dns.TypeMX), b("bar.example.com.", dns.TypeMX), // NODATA twice
 		b("nx.example.org.", dns.TypeA), b("nx.example.org.", dns.TypeA), // NXDOMAIN twice
 		b("x.nonauth.example.com.", dns.TypeA), b("x.nonauth.example.com.", dns.TypeA), // referral twice
-		b("nonauth.example.com.", dns.TypeDS),  // DS at a delegation: answered by the parent
-		b("example.invalid.", dns.TypeA),       // REFUSED
-		v1,                                     // BADVERS
-		b("example.com.", dns.TypeANY),         // ANY
+		b("nonauth.example.com.", dns.TypeDS), // DS at a delegation: answered by the parent
+		b("example.invalid.", dns.TypeA),      // REFUSED
+		v1,                                    // BADVERS
+		b("example.com.", dns.TypeANY),        // ANY
 		e(b("foo.example.com.", dns.TypeA), "1.1.1.0/24"), // ECS location
 		e(b("foo.example.com.", dns.TypeA), "8.8.8.0/24"), // ECS without match
 		do,
@@ -1171,7 +1177,7 @@ func queryPart(a *hlib.Args, e *hlib.Emitter, dbs *dbSet) error {
 		if err != nil {
 			return err
 		}
-		n := 2 + r.Intn(7)
+		n := 6 + r.Intn(9)
 		var prior []qspec
 		for i := 0; i < n; i++ {
 			var q qspec
@@ -1269,6 +1275,12 @@ func run(a *hlib.Args, e *hlib.Emitter) error {
 	if a.Replay != "" {
 		return replay(a, e, scratch)
 	}
+	t0 := time.Now()
+	lap := func(what string) {
+		if os.Getenv("C19_TIMING") != "" {
+			fmt.Fprintf(os.Stderr, "c19 timing: %s at %.2fs\n", what, time.Since(t0).Seconds())
+		}
+	}
 	winCh := make(chan []c19case, 1)
 	go func() { winCh <- windowPart(a.Seed, a.Tier) }()
 	dbs, err := buildDBs(scratch)
@@ -1276,13 +1288,17 @@ func run(a *hlib.Args, e *hlib.Emitter) error {
 		return err
 	}
 	defer os.RemoveAll(filepath.Dir(dbs.paths["cdb"]))
+	lap("databases built")
 	if err := queryPart(a, e, dbs); err != nil {
 		return err
 	}
+	lap(fmt.Sprintf("queries done (new %.2f close %.2f)", tNew.Seconds(), tClose.Seconds()))
 	concPart(a, e)
+	lap("concurrency done")
 	for _, c := range <-winCh {
 		e.Emit(c)
 	}
+	lap("windows done")
 	return nil
 }
 
